@@ -11,12 +11,15 @@ CASE_TYPE = "tcase"
 DRIVER_PKG = "cmd/verif_c15"
 SHARD = 60
 
-VARIANTS = [
-    {"name": "current(unchecked assertions, one-token unknown keys, lenient structure)", "findings": ["F15a", "F15b", "F15c", "F15d"]},
-    {"name": "types-checked", "findings": ["F15b", "F15c", "F15d"]},
-    {"name": "types-checked+unknown-skipped", "findings": ["F15c", "F15d"]},
-    {"name": "fixed(strict)", "findings": []},
-]
+_PV = [("current(unchecked assertions, one-token unknown keys, lenient structure)", ["F15a", "F15b", "F15c", "F15d"]),
+       ("types-checked", ["F15b", "F15c", "F15d"]),
+       ("types-checked+unknown-skipped", ["F15c", "F15d"]),
+       ("fixed(strict)", [])]
+# x (proxy page reader: continuation token assertion unchecked / checked); order = Check.C15Check.evaluate
+VARIANTS = []
+for _n, _f in _PV:
+    VARIANTS.append({"name": _n + " / proxy token unchecked", "findings": _f + ["F15e"]})
+    VARIANTS.append({"name": _n + " / proxy token checked", "findings": list(_f)})
 RULE = ("cases = byte strings: (a) generated UDA collections (context with default '_' prefix, CURIE / absolute-URI ids, all JSON "
         "value shapes, nested entities, array refs, nulls, duplicate and unknown keys, shuffled key order), adversarial contexts "
         "(prefixes beginning with http/https, nsN names colliding with the receiving store's numbering, prefixes equal to key names), "
@@ -127,24 +130,31 @@ def groups_term(gs):
     return vlib.coq_list(["(%s, %s)" % (cstr(g[0]), vlib.coq_list([ent_term(e) for e in g[1]])) for g in gs])
 
 
-MODE = {"stream": "MStream", "txn": "MTxn", "http": "MHttp"}
+MODE = {"stream": "MStream", "txn": "MTxn", "http": "MHttp", "proxy": "MProxy"}
 
 
 def term(c, o):
     post = o.get("post") or {}
-    return ("{| c_mode := %s; c_toks := %s; c_eof := %s; c_post := %s; c_post_eof := %s; c_ordered := %s; o_outcome := %d%%N; "
-            "o_groups := %s; o_ns := %s; o_status := %d%%N |}" % (
+    post2 = o.get("post2") or {}
+    return ("{| c_mode := %s; c_toks := %s; c_eof := %s; c_post := %s; c_post_eof := %s; c_ordered := %s; "
+            "c_has2 := %s; c_post2 := %s; c_post2_eof := %s; o_outcome := %d%%N; "
+            "o_groups := %s; o_ns := %s; o_status := %d%%N; o_status2 := %d%%N; o_token := %s |}" % (
                 MODE[c["mode"]], toks_term(o.get("tokens") or []), vlib.coq_bool(o.get("eof", False)),
                 toks_term(post.get("tokens") or []), vlib.coq_bool(post.get("eof", False)),
                 vlib.coq_bool(c.get("get", "changes") != "entities"),
+                vlib.coq_bool(bool(c.get("body2"))), toks_term(post2.get("tokens") or []), vlib.coq_bool(post2.get("eof", False)),
                 OUTCOME.get(o["outcome"], 9), groups_term(o.get("groups") or []),
                 vlib.coq_list(["(%s, %s)" % (cstr(k), cstr(x)) for k, x in (o.get("ns") or [])]),
-                STATUS.get(o.get("status", 0), 9) if c["mode"] == "http" else 0))
+                STATUS.get(o.get("status", 0), 9) if c["mode"] == "http" else 0,
+                STATUS.get(o.get("status2", 0), 9) if (c["mode"] == "http" and c.get("body2")) else 0,
+                cstr(o.get("token") or "")))
 
 
 def predict_text(c, o):
     t = term(c, o)
     q = ("Definition c : tcase := %s.\n"
+         "Eval vm_compute in (match c_mode c with MProxy => Some (proxy_page current false (fuel_for (c_toks c)) (c_eof c) (c_toks c), "
+         "proxy_page fixed true (fuel_for (c_toks c)) (c_eof c) (c_toks c)) | _ => None end).\n"
          "Eval vm_compute in (match c_mode c with MTxn => (run_txn current (c_toks c), run_txn fixed (c_toks c)) "
          "| _ => (run_stream current (c_toks c) (c_eof c), run_spec (c_toks c) (c_eof c)) end).\n"
          "Eval vm_compute in (match c_mode c with MHttp => Some (run_stream current (c_post c) (c_post_eof c), "
@@ -367,6 +377,65 @@ def cont_order_collection(rng, g):
     return ("a", els)
 
 
+FNS = ["changes-raw", "changes", "entities-raw", "entities"]
+TAIL_DAMAGE = ['{"id":5}', '{"id":"zz9:undeclared"}', '{"id":"a:cut","props":{"a:p":', '{"id":"a:t","deleted":"no"}', '7', '"x"',
+               '{"id":"a:t","recorded":"x"}', '{"id":"a:t","props":{"zz9:k":1}}', '{"id":"a:t","refs":{"a:r":5}}', '{"id":""}']
+
+
+def proxy_page_case(rng, g, i):
+    """a remote hub's answer as the proxy page reader sees it: valid pages with the continuation element in any position,
+    pages damaged BEFORE and AFTER the continuation element (wrong types, undeclared prefix, cut off, never closed),
+    continuation elements without / with ill-typed token"""
+    ctx = '{"id":"@context","namespaces":{"_":"http://ex.org/d/","a":"http://ex.org/a/"}}'
+    ents = ['{"id":"a:p%d","props":{"a:n":%d}}' % (k, k) for k in range(rng.range(0, 3))]
+    cont = rng.choice(['{"id":"@continuation","token":"abc"}', '{"id":"@continuation","token":"MTI="}', '{"id":"@continuation","token":""}'])
+    kind = i % 6
+    close = "]"
+    if kind == 0:        # valid, continuation last / first / in the middle / absent
+        els = list(ents)
+        if rng.chance(4, 5):
+            els.insert(rng.below(len(els) + 1), cont)
+        tag = "proxy-valid"
+    elif kind in (1, 2):   # damage behind the continuation element
+        els = ents + [cont] + [rng.choice(TAIL_DAMAGE)]
+        if rng.chance(1, 3):
+            els.append('{"id":"a:after"}')
+        if els[-1].endswith(":") or rng.chance(1, 4):
+            close = ""
+        tag = "proxy-tail-damage"
+    elif kind == 3:      # damage in front of it
+        els = ents + [rng.choice(TAIL_DAMAGE)] + [cont]
+        if els[-2].endswith(":"):
+            els = els[:-1]
+            close = ""
+        tag = "proxy-head-damage"
+    elif kind == 4:      # token missing / ill typed / several continuation elements
+        bad = rng.choice(['{"id":"@continuation"}', '{"id":"@continuation","token":5}', '{"id":"@continuation","token":null}',
+                          '{"id":"@continuation","token":true}', '{"id":"@continuation","props":{}}'])
+        els = ents + ([cont, bad] if rng.chance(1, 2) else [bad] + ([cont] if rng.chance(1, 3) else []))
+        tag = "proxy-token"
+    else:                # never closed / trailing data after a complete page
+        els = ents + [cont]
+        close = rng.choice(["", "] x", "]]", "]{\"id\":\"a:late\"}", "],"])
+        tag = "proxy-open"
+    body = "[" + ",".join([ctx] + els) + close
+    return mk("proxy", body, tag, fn=FNS[rng.below(4)] if i % 2 else "changes-raw")
+
+
+def restart_case(rng, i):
+    """POST a payload that introduces NEW namespaces, restart the hub, (POST a payload with ANOTHER new namespace,) GET, parse back"""
+    n1 = "http://new%d.org/r/" % rng.range(1, 99)
+    n2 = "http://new%d.org/q#" % rng.range(100, 199)
+    n3 = "http://later%d.org/z/" % rng.range(1, 99)
+    b1 = ('[{"id":"@context","namespaces":{"x":"%s","y":"%s","a":"http://ex.org/a/"}},'
+          '{"id":"a:r%d","props":{"x:name":"Homer","y:age":%d},"refs":{"y:knows":"x:other"}},{"id":"y:second","props":{"a:n":1}}]' % (n1, n2, i, i))
+    c = mk("http", b1, "restart", get=rng.choice(["changes", "entities"]), restart=True)
+    if i % 2:
+        c["body2"] = ('[{"id":"@context","namespaces":{"z":"%s","a":"http://ex.org/a/"}},{"id":"z:third%d","props":{"z:name":"Bart"},"refs":{"a:r":"z:t"}}]' % (n3, i))
+        c["kind"] = "restart-post"
+    return c
+
+
 BAD_VALUES = ["5", "\"s\"", "true", "false", "null", "[]", "{}", "[1,2]", "{\"a\":1}", "[\"id\",\"a:zz\"]", "{\"id\":\"a:inner\"}",
               "[{\"id\":\"a:inner\"}]", "{\"props\":{\"a:p\":1}}", "-1", "1.5", "\"false\"", "\"\"", "[[\"a\"]]", "{\"deleted\":true}"]
 
@@ -517,6 +586,20 @@ def witness_cases():
         S('{"id":"@continuation","token":"t"},{"id":"a:1","props":{"a:p":1},"token":"x"}', "w-cont-then-token"),
         S('{"id":"a:0","props":{"a:p":{"id":"@continuation","token":"t"}}},{"id":"a:1","props":{"a:p":1},"token":"x"}', "w-nested-cont-then-token"),
         S('{"id":"a:1","props":{"a:p":1},"token":"x"},{"id":"@continuation","token":"t"}', "w-token-then-cont"),
+        # proxy page reader: damage behind the continuation element, ill-typed / missing token (F15e)
+        mk("proxy", "[" + CTX + ',{"id":"a:1"},{"id":"@continuation","token":"t"},{"id":5}]', "w-proxy-tail-badid", fn="changes-raw"),
+        mk("proxy", "[" + CTX + ',{"id":"a:1"},{"id":"@continuation","token":"t"},{"id":"zz:undeclared"}]', "w-proxy-tail-prefix", fn="changes-raw"),
+        mk("proxy", "[" + CTX + ',{"id":"a:1"},{"id":"@continuation","token":"t"}', "w-proxy-open", fn="changes-raw"),
+        mk("proxy", "[" + CTX + ',{"id":"a:1"},{"id":"@continuation","token":"t"},{"id":"a:cut","props":{', "w-proxy-cut", fn="entities-raw"),
+        mk("proxy", "[" + CTX + ',{"id":"a:1"},{"id":"@continuation","token":5}]', "w-F15e-proxy-token-number", fn="changes-raw"),
+        mk("proxy", "[" + CTX + ',{"id":"a:1"},{"id":"@continuation"}]', "w-F15e-proxy-token-missing", fn="entities"),
+        mk("proxy", "[" + CTX + ',{"id":"a:1"},{"id":"a:2"},{"id":"@continuation","token":"abc"}]', "w-proxy-ok", fn="changes"),
+        # round trip across a restart of the hub, with and without a later POST that brings another new namespace
+        mk("http", '[{"id":"@context","namespaces":{"x":"http://example.org/b/"}},{"id":"x:homer","props":{"x:name":"Homer"}}]',
+           "w-restart", get="changes", restart=True),
+        mk("http", '[{"id":"@context","namespaces":{"x":"http://example.org/b/"}},{"id":"x:homer","props":{"x:name":"Homer"}}]',
+           "w-restart-post", get="changes", restart=True,
+           body2='[{"id":"@context","namespaces":{"z":"http://example.org/c/"}},{"id":"z:bart","props":{"z:name":"Bart"}}]'),
         # fine
         S('{"id":"a:1","props":{"a:n":"x","k":[1,true,{"id":"z"}],"nul":null},"refs":{"a:r":"a:2","rr":["http://o/x#y","b"]},'
           '"deleted":true,"recorded":12}, {"id":"@continuation","token":"abc"}', "w-ok"),
@@ -531,10 +614,10 @@ def corpus_cases():
 
 def gen(rng, tier):
     out = []
-    n_valid, n_mut, n_text, n_rand, n_txn, n_http, n_adv = {
-        "quick": (50, 100, 50, 50, 50, 32, 40),
-        "search": (40, 200, 100, 60, 80, 30, 80),
-        "thorough": (500, 1500, 800, 800, 600, 200, 400),
+    n_valid, n_mut, n_text, n_rand, n_txn, n_http, n_adv, n_proxy, n_restart = {
+        "quick": (50, 100, 50, 50, 50, 32, 40, 72, 10),
+        "search": (40, 200, 100, 60, 80, 30, 80, 120, 16),
+        "thorough": (500, 1500, 800, 800, 600, 200, 400, 600, 60),
     }[tier]
     g = Gen(rng)
     for _ in range(n_valid):
@@ -567,6 +650,10 @@ def gen(rng, tier):
     for i in range(n_adv):
         t = cont_order_collection(rng, ga if i % 2 else g)
         out.append(mk("stream" if i % 4 else "http", jtext(t), "cont-order", get="changes"))
+    for i in range(n_proxy):
+        out.append(proxy_page_case(rng, g, i))
+    for i in range(n_restart):
+        out.append(restart_case(rng, i))
     for i in range(n_txn):
         t = g.txn()
         kind = "txn-valid"
@@ -593,19 +680,23 @@ def gen(rng, tier):
 
 
 def run(binp, cases):
-    return vlib.run_driver(binp, cases, died_obs={"tokens": [], "eof": False, "groups": [], "ns": [], "status": 0})
+    return vlib.run_driver(binp, cases, died_obs={"tokens": [], "eof": False, "groups": [], "ns": [], "status": 0, "status2": 0, "token": ""})
 
 
 def attribute(c, o):
+    k = c.get("kind", "")
+    if c.get("mode") == "proxy" and o.get("outcome") == "panic" and "interface {}" in (o.get("detail") or ""):
+        return "F15e"
     if o.get("outcome") == "panic" or o.get("status") == 500:
         return "F15a"
-    k = c.get("kind", "")
     if "F15b" in k:
         return "F15b"
     if "F15c" in k:
         return "F15c"
     if "F15d" in k:
         return "F15d"
+    if "F15e" in k:
+        return "F15e"
     return None
 
 
